@@ -49,6 +49,7 @@ type Policy struct {
 	Starve      bool    // give some tasks a very low weight
 	TimerEager  float64 // probability to fire the next timer although tasks are runnable
 	WakeOldest  float64 // probability that Signal wakes the oldest waiter
+	AfterUnlock float64 // probability to offer a pre-emption right after a lock release (check-then-act windows)
 }
 
 // Config of one run.
@@ -153,6 +154,7 @@ type Sim struct {
 	failed   bool
 	siteCnt  map[int32]int64
 	chans    map[uintptr]*simChan
+	noted    map[interface{}]int
 }
 
 var (
@@ -374,6 +376,25 @@ func (s *Sim) drawSlice() {
 		return 1 + s.rng.intn(n)
 	})
 	s.slice = sliceTable[i]
+}
+
+// AfterRelease is called by the drop-ins after a lock has been released: the
+// statement boundary right behind a critical section is where atomicity violations
+// (check under the lock, act after it) live, so the scheduler may end the slice
+// there.  One decision per release (0 = carry on).
+func (s *Sim) AfterRelease() {
+	if s.live < 2 {
+		return
+	}
+	p := s.cfg.Policy.AfterUnlock
+	if s.choose(KSlice, 2, func() int {
+		if s.rng.float() < p {
+			return 1
+		}
+		return 0
+	}) == 1 {
+		s.slice = 1
+	}
 }
 
 // Choose is a workload-level decision (fault or not, which command next, ...).
